@@ -628,6 +628,90 @@ def t14(rep):
                       "unaffected)", detail={"cfg_path": bad[:10]})
 
 
+def _next_chain(n):
+    """lexEnv->next->...->next  ->  number of `next` links, or None"""
+    k = 0
+    s_ = strip(n)
+    while s_ is not None and s_["k"] == "MemberExpr" and s_["n"] == "next":
+        k += 1
+        s_ = strip(s_["c"][0])
+    if s_ is not None and s_["k"] == "DeclRefExpr" and s_["n"] == "lexEnv":
+        return k
+    return None
+
+
+def t15(rep):
+    """A lexical reference (Lex lev n), an environment reference (Env lev) and the left-hand side of an assignment to a lexical
+    all find their frame by following `lev` links from the current environment.  The interpreter unrolls the first levels
+    (`case k:` uses k links) and walks the rest in a loop.  Each of the three copies must reach link number `lev`: case k follows
+    exactly k links, and a default that starts from m links and loops `for (j = j0; j < lev; j++) e = e->next` needs m == j0.
+    The generated C indexes the same chain; a copy that stops one frame short assigns a deep lexical in the wrong frame, in the
+    interpreter only."""
+    f = common.extract("fint.c", trees=["fintEval_", "fintGetReference"])
+    n = 0
+    for fname in ("fintEval_", "fintGetReference"):
+        fn = f.func(fname)
+        for sw in walk(fn["body"]):
+            if sw["k"] != "SwitchStmt":
+                continue
+            d = strip(sw["c"][0])
+            if d is None or d["k"] != "DeclRefExpr" or d["n"] != "lev":
+                continue
+            try:
+                groups = common.switch_cases(sw)
+            except AnalysisBroken:
+                continue
+            uses_env = any(y["k"] == "DeclRefExpr" and y["n"] == "lexEnv" for g in groups for st in g["stmts"] for y in walk(st))
+            if not uses_env:
+                continue
+            for g in groups:
+                for lab in g["labels"]:
+                    where = "fint.c:%d (%s)" % (g["line"], fname)
+                    if lab[0] == "default":
+                        init = j0 = None
+                        for st in g["stmts"]:
+                            for x in walk(st):
+                                if x["k"] == "DeclStmt":
+                                    for dcl in x.get("decls", []):
+                                        if dcl.get("init") is not None and _next_chain(dcl["init"]) is not None:
+                                            init = _next_chain(dcl["init"])
+                                elif x["k"] == "BinaryOperator" and x["op"] == "=" and _next_chain(x["c"][1]) is not None and \
+                                        (strip(x["c"][0]) or {}).get("k") == "DeclRefExpr" and init is None:
+                                    init = _next_chain(x["c"][1])
+                                elif x["k"] == "ForStmt":
+                                    i0 = strip(x["c"][0])
+                                    cond = strip(x["c"][1])
+                                    if i0 is not None and i0["k"] == "BinaryOperator" and i0["op"] == "=" and cond is not None and \
+                                            cond["k"] == "BinaryOperator" and cond["op"] == "<" and (strip(cond["c"][1]) or {}).get("n") == "lev":
+                                        j0 = const_value(i0["c"][1])
+                        if init is None or j0 is None:
+                            raise AnalysisBroken("%s: the default of a `switch (lev)` over lexEnv is not `e = lexEnv->next^m; for (j = j0; "
+                                                 "j < lev; j++) e = e->next`" % fname)
+                        n += 1
+                        key = "level-walk:%s@%d:default" % (fname, sw["l"])
+                        if init == j0:
+                            rep.ok("T15", key, sample={"starts at link": init, "loop from": j0})
+                        else:
+                            rep.violation("T15", key, where,
+                                          "the walk for levels beyond the unrolled ones starts from link %d and counts from %d: it ends "
+                                          "at link lev%+d instead of link lev; the reference (for fintGetReference: the target of an "
+                                          "assignment) lands in the wrong environment frame, while the executable uses the right one"
+                                          % (init, j0, init - j0))
+                    elif lab[1] is not None:
+                        chains = [c for st in g["stmts"] for x in walk(st) for c in [_next_chain(x)] if c is not None and x["k"] == "MemberExpr"]
+                        if not chains and lab[1] == 0:
+                            continue
+                        if not chains:
+                            continue
+                        n += 1
+                        key = "level-walk:%s@%d:case-%d" % (fname, sw["l"], lab[1])
+                        if max(chains) == lab[1]:
+                            rep.ok("T15", key, nontrivial=False)
+                        else:
+                            rep.violation("T15", key, where, "case %d follows %d environment links" % (lab[1], max(chains)))
+    rep.floor("level walks of the interpreter", n, 12)
+
+
 def run(tier, only=None):
     rep = common.Report("C03", tier, EXPLANATION)
     f_fint = common.extract("fint.c", trees=INTERP_CHAIN + ["fintInitForeignGlobValue"])
@@ -644,6 +728,7 @@ def run(tier, only=None):
     t12(rep)
     t13(rep)
     t14(rep)
+    t15(rep)
     from . import variant_dispatch
     _fg = common.extract("genc.c", all_trees=True)
     for _d, _fl in (("gccExpr", 8), ("gccCmd", 3), ("gccRef", 8)):
